@@ -17,3 +17,32 @@ package goja
 //@ onceonly (*importedString).scan$1
 //@ stable importedString.s importedString.u
 //@ atomiconly importedString.scanned
+
+// A regular-expression literal's compiled pattern belongs to the Program. The pattern fills in its
+// backtracking matcher lazily and that matcher caches its last match, so a Runtime must never be handed
+// the Program's own pattern object: every evaluation of the literal works on a copy, and the copy does
+// not share the cache-holding matcher.
+//@ func (*regexp2Wrapper).clone
+//@   props C16
+//@   requires r != nil
+//@   ensures result != nil && result != r [the-matcher-with-the-cache-is-copied]
+//@   assigns nothing
+
+//@ func (*regexpWrapper).clone
+//@   props C16
+//@   assigns nothing
+
+//@ func (*regexpPattern).clone
+//@   props C16
+//@   requires p != nil
+//@   ensures result != nil && result != p [the-copy-is-a-new-object]
+//@   ensures result.regexp2Wrapper == nil || result.regexp2Wrapper != p.regexp2Wrapper [the-cache-holding-matcher-is-not-shared]
+//@   assigns nothing
+
+//@ func (*newRegexp).exec
+//@   props C16
+//@   requires n != nil && n.pattern != nil
+//@   site newRegExpp#1 vars arg1 *regexpPattern, n *newRegexp
+//@   site newRegExpp#1 requires arg1 != n.pattern [a-program-s-pattern-is-copied-not-handed-out]
+// the instruction itself is part of the Program: its operands are set where the compiler allocates it
+//@ stable newRegexp.pattern newRegexp.src
